@@ -1869,14 +1869,14 @@ impl ReManager {
             BaseRegLan::Empty => false,
             BaseRegLan::Epsilon => false,
             BaseRegLan::Range(set) => set.contains(c),
-            BaseRegLan::Concat(e1, e2) => {
-                self.start_char(e1, c) || e1.nullable && self.start_char(e2, c)
-            }
             BaseRegLan::Loop(e, _) => self.start_char(e, c),
-            BaseRegLan::Inter(args) => args.iter().all(|x| self.start_char(x, c)),
             BaseRegLan::Union(args) => args.iter().any(|x| self.start_char(x, c)),
-            BaseRegLan::Complement(_) => {
-                // expensive case
+            BaseRegLan::Concat(..) | BaseRegLan::Inter(_) | BaseRegLan::Complement(_) => {
+                // expensive cases: a structural test is not exact here.
+                // - a concatenation has no string at all if one of its factors is empty
+                //   (possibly only semantically), whatever the first factor starts with
+                // - two languages may both have strings that start with c without
+                //   sharing any such string
                 let d = self.deriv(e, c);
                 !self.is_empty_re(d)
             }
